@@ -5,24 +5,14 @@
      call carries the body of an envelope read from the transport with that call's id), [J_reach] (the
      envelopes a unary call writes: at most one, [req_env id payload]), [all_inv_reach];
    - wires (Proofs/SysProofs.v): nothing is fabricated, lost, duplicated or reordered;
-   - server: [server_fact_reply_origin] below, about an ARBITRARY peer of the server model. It is NOT yet
-     proved (work package sv has the structural invariant only): the theorems that need it take it as an
-     explicit premise and are named [..._partial]. *)
+   - server: [server_fact_reply_origin] below, about an ARBITRARY peer of the server model: proved in
+     Proofs/SysFacts.v ([srv_reply_origin], an inductive invariant over every place a frame can be on its way
+     to the transport). *)
 From Coq Require Import List ZArith Bool Lia Arith.
 Import ListNotations.
 From Goat Require Import Model.Client Model.Server Proofs.ClientBase Proofs.ClientInv Proofs.ClientLog Proofs.ClientLive
-  Proofs.ClientProps Proofs.ProtocolClient Proofs.ServerProofs Model.Sys Proofs.SysLog Proofs.SysProofs.
+  Proofs.ClientProps Proofs.ProtocolClient Proofs.ServerProofs Model.Sys Proofs.SysLog Proofs.SysProofs Proofs.SysFacts.
 Open Scope Z_scope.
-
-(* ---------- runs of the server whose handler steps obey a policy ---------- *)
-Fixpoint srun_pol (pol : policy) (v : Server.state) (ls : list Server.label) : option Server.state :=
-  match ls with
-  | [] => Some v
-  | l :: rest =>
-      if pol_ok pol v l then
-        match Server.lstep v l with Some v' => srun_pol pol v' rest | None => None end
-      else None
-  end.
 
 Lemma proj_s_run_pol pol ls : forall s s', Sys.lrun pol s ls = Some s' -> srun_pol pol (sv s) (proj_s pol s ls) = Some (sv s').
 Proof.
@@ -89,6 +79,15 @@ Proof.
   - subst b. unfold body_tok. rewrite Hreq. reflexivity.
   - exfalso. unfold has_body in Hcase. rewrite Hreq in Hcase. discriminate.
 Qed.
+
+Theorem server_fact_reply_origin_holds f : server_fact_reply_origin f.
+Proof. intros ls v fr b. apply srv_reply_origin. Qed.
+
+Theorem C01_pairing f ls s c k b :
+  Sys.lrun (pol_c01 f) Sys.init ls = Some s ->
+  nth_error (calls (cl s)) c = Some k -> k_unary k = true ->
+  In (EvUnaryRet c (UOk b)) (Client.log (cl s)) -> b = f (k_payload k).
+Proof. apply C01_pairing_partial, server_fact_reply_origin_holds. Qed.
 
 (* ---------- a deterministic scheduler, to exhibit concrete runs (Examples of Props/C01.v, C02.v) ---------- *)
 Fixpoint s_first_enabled_idx (rs : list Server.rule) (s : Server.state) (i : nat) : option nat :=
